@@ -131,6 +131,42 @@ def from_params(args):
     return [roundtrip(h, pkg, "params")]
 
 
+def from_pairs(k):
+    """instances of one target whose parameters are equal in value but written differently, side by side in one module"""
+    from ..hd import h
+    from . import c13
+    from hdl21.prefix import Prefixed, Prefix
+    from decimal import Decimal
+    m = h.Module(name=f"Pairs{k}")
+    m.s = h.Signal()
+    mk = lambda t: Prefixed(number=Decimal(t[0]), prefix=Prefix.from_exp(t[1]))
+    em = h.ExternalModule(name="ExtP", port_list=[h.Port(name="a")], paramtype=dict, desc="x", domain="verif")
+    n = 0
+    pairs = c13.EQUAL_PAIRS if k % 2 == 0 else list(reversed(c13.EQUAL_PAIRS))
+    for a, b in pairs:
+        for v in ((a, b) if k % 4 < 2 else (b, a)):
+            m.add(h.primitives.IdealResistor(r=mk(v))(p=m.s, n=m.s), name=f"r{n}")
+            m.add(em({"x": mk(v), "y": 2 if n % 2 else 2.0})(a=m.s), name=f"e{n}")
+            n += 1
+    return [roundtrip(h, h.to_proto(m), "pairs")]
+
+
+def from_bare(k):
+    """modules defined outside any Python module (exec'd source, as in a notebook cell): exported under bare, path-less names"""
+    from ..hd import h
+    src = (
+        "leaf = h.Module(name='BareLeaf%d')\n"
+        "leaf.p = h.Port()\n"
+        "leaf.r = h.primitives.IdealResistor(r=1)(p=leaf.p, n=leaf.p)\n"
+        "top = h.Module(name='BareTop%d')\n"
+        "top.s = h.Signal()\n"
+        "top.i = leaf(p=top.s)\n"
+    ) % (k, k)
+    ns = {"h": h}
+    exec(compile(src, "<cell>", "exec"), ns)
+    return [roundtrip(h, h.to_proto(ns["top"]), "bare")]
+
+
 def run(tier, seed, replay_file=None):
     o = Outcome(PID, tier, seed)
     o.rule = ("packages: valid universe designs (quick: seeded sample), the examples' exported packages, built-in generators, and modules full of "
@@ -145,6 +181,10 @@ def run(tier, seed, replay_file=None):
     for out in pool_map(from_example, ["ro", "rdac", "encoder", "diff_ota", "idac", "bundles"], jobs=6):
         evs += out
     for out in pool_map(from_params, [(k, seed, tier) for k in range(300 if tier == "quick" else 3000)], chunksize=16):
+        evs += out
+    for out in pool_map(from_pairs, list(range(8))):
+        evs += out
+    for out in pool_map(from_bare, list(range(2))):
         evs += out
     for i, e in enumerate(evs):
         e["tid"] = i
@@ -176,7 +216,7 @@ def run(tier, seed, replay_file=None):
             o.violations.append(Violation(clause=clause.split(":")[0], case={"source": e["src"], "P": e["P"]}, features=["src_" + src, clause.split(":")[0]],
                                           detail={"clause": clause, "exc": e["exc"], "P2": e["P2"]} if len(o.violations) < 12 else clause))
     o.distinct_nontrivial = len(seen)
-    o.required_cover = ["src_params", "src_example", "src_U_sig", "conn_slice", "conn_cat", "conn_sig", "param_prefixed", "param_literal", "param_int64", "param_double"]
+    o.required_cover = ["src_pairs", "src_bare", "src_params", "src_example", "src_U_sig", "conn_slice", "conn_cat", "conn_sig", "param_prefixed", "param_literal", "param_int64", "param_double"]
     for i in rnd.sample(range(len(evs)), 2):
         o.samples.append({"source": evs[i]["src"], "modules": [m["name"] for m in evs[i]["P"]["mods"]], "verdict": verdicts[i]})
     return o
